@@ -55,6 +55,9 @@ class Monitor:
     def after_call(self, core_before, core_after, callee, node, eng):   # summarised callee returned
         return core_after
 
+    def on_local_write(self, core, lhs, node, eng):        # assignment / ++ / -- to something outside '@'
+        return [core]
+
 
 class Activation:
     def __init__(self, f, binding, depth, parent=None, callsite=None):
@@ -262,6 +265,11 @@ class Engine:
                         for core in _as_list(self.mon.on_write(s2[0], p, e, None, (self, act))):
                             res.append(((core, s2[1]), None))
                     return res
+                res = []
+                for (s2, _v) in outs:
+                    for core in _as_list(self.mon.on_local_write(s2[0], X.strip(e["e"]), e, (self, act))):
+                        res.append(((core, s2[1]), None))
+                return res
             return [(s2, None) for (s2, _v) in outs]
         if k == "assign":
             res = []
@@ -282,7 +290,8 @@ class Engine:
                         for core in _as_list(self.mon.on_write(s2[0], p, e, v, (self, act))):
                             res.append(((core, benv), v))
                     else:
-                        res.append(((s2[0], benv), v))
+                        for core in _as_list(self.mon.on_local_write(s2[0], l0, e, (self, act))):
+                            res.append(((core, benv), v))
             return res
         if k in ("call", "construct"):
             ek = _engagement_key(e)
